@@ -173,6 +173,16 @@ func fixedPoint(c *wk.Case, what string, b0 []byte, mustAccept bool) {
 	b1 := write(c, what+"/gen1", f1, orderChoice(t))
 	f2 := read(c, what+"/gen2", b1, orderChoice(t), true)
 	if d := simgen.FontDiff(f1, f2); d != "" {
+		if what == "survivor" {
+			// Is this the first write normalising an internally inconsistent
+			// (damaged) file, after which the font is stable?  That class is
+			// reported under its own fingerprint.
+			b2 := write(c, what+"/gen2", f2, orderChoice(t))
+			f3 := read(c, what+"/gen3", b2, orderChoice(t), true)
+			if simgen.FontDiff(f2, f3) == "" {
+				c.Fail("normalised-on-first-cycle", what+"/"+pathHead(d), "%s: Read(Write(Read(b))) differs from Read(b): %s (the second cycle is a fixed point: the first write normalised the damaged file)", what, d)
+			}
+		}
 		c.Fail("fixed-point-font", what+"/"+pathHead(d), "%s: Read(Write(Read(b))) differs from Read(b): %s", what, d)
 	}
 	b2 := write(c, what+"/gen2", f2, orderChoice(t))
